@@ -1736,6 +1736,27 @@ def propagate_pure_hoists(tree: ast.Module) -> int:
                 uses = [n for n in order if n.id == x.id and isinstance(n.ctx, ast.Load)]
                 if not uses or any(pos[id(u)] < pos[id(x)] for u in uses) or not any(id(u) in in_loop for u in uses):
                     continue
+                if any(isinstance(y, ast.BinOp) for y in ast.walk(v)):
+                    # an operator builds a *new* object each time: fine for numbers / strings used as numbers, wrong for a
+                    # set or list that is mutated or whose identity matters - only arithmetic / slicing / comparing uses
+                    arith = set()
+                    for ctxn in ast.walk(fn):
+                        kids = []
+                        if isinstance(ctxn, ast.Slice):
+                            kids = [ctxn.lower, ctxn.upper, ctxn.step]
+                        elif isinstance(ctxn, ast.BinOp):
+                            kids = [ctxn.left, ctxn.right]
+                        elif isinstance(ctxn, ast.Compare):
+                            kids = [ctxn.left] + list(ctxn.comparators)
+                        elif isinstance(ctxn, ast.Subscript):
+                            kids = [ctxn.slice]
+                        elif isinstance(ctxn, ast.Call) and isinstance(ctxn.func, ast.Name) and ctxn.func.id == "range":
+                            kids = list(ctxn.args)
+                        for k_ in kids:
+                            if isinstance(k_, ast.Name):
+                                arith.add(id(k_))
+                    if not all(id(u) in arith for u in uses):
+                        continue
                 found = (st, x.id, v)
                 break
             if not found:
